@@ -11,6 +11,33 @@ TB = ("Trusted: Coq 8.16.1 kernel and vm_compute; the axioms printed by "
       "harness (canonicalisation, error-kind mapping). ")
 
 CLAIMS = {
+ "C03": dict(
+  technique="Coq proof: invariant by induction over all operation histories of a state-machine model with universally quantified oracles; stepwise refinement check against the real object",
+  text="coq/Model/Curve.v models FitProperties.__setitem__/reset, apply_preprocessing, fit_model with the IndentationFitter constructor, rate_quality, compute_emodulus_mindelta and "
+       "get_initial_fit_parameters as a total step function; preprocessing, optimiser, hash and rater are oracle answers quantified universally. C03_valid proves for EVERY history "
+       "(induction) that visible results were computed from the pipeline the data hold now and from settings equivalent (Python ==, parameter state) to the stored ones; C03_setitem_sound, "
+       "C03_no_recompute; C03_direct_edit_refuted is a kernel-checked witness for the known finding. Tie: every step of random histories and an exhaustive key x value sweep of "
+       "__setitem__ is executed on the real object and on the model (abstraction function, comparison inside Coq); the fresh-curve comparison (bit-identical) searches for failing histories.",
+  note=TB + "Oracles (not verified): determinism of preprocessing/optimiser/hash as functions of (data, settings); the rater is a stub in histories. "
+       "Alphabet restriction of the theorem: result keys are not written by hand, the two preprocessing keys are not edited directly (known finding).",
+  ref="6/C03"),
+ "C06": dict(
+  technique="Coq proof of one-step theorems over the curve model (all states, all oracle answers); stepwise refinement check; exhaustive ordered pairs of a request catalogue against fresh curves",
+  text="Theorems over coq/Model/Curve.v for ALL states and oracle answers: a rejected request (any reason) is not remembered and is executed again when repeated; re-applying the applied "
+       "pipeline is the identity; a request is either skipped with settings/columns untouched or executed with results, columns and rating dropped. Tie as for C03. Search: every ordered "
+       "pair (A then B) of valid/invalid requests, also via fit_model(preprocessing=...), compared byte for byte with B on a fresh curve; raw data compared before/after.",
+  note=TB + "What each step computes is an oracle here (C07). The history-level purity invariant (memo always describes the data) is proved only through C03_valid's provenance part; "
+       "afmformats' raw-data separation is observed, not modelled.",
+  ref="6/C06"),
+ "C09": dict(
+  technique="Coq proof of the cache decision and rater decision structure + real-analysis lemma for averaging regressors; stepwise refinement check; comparison with the standalone rater",
+  text="Theorems: 'none' regressor gives -1 and leaves the cache alone; a cached value is returned ONLY if hash, regressor, training set, names and LDA flag all compare equal; any "
+       "difference recomputes and re-keys; executed/rejected preprocessing forgets the rating; the rater's decision order (exclusion -> 0, NaN -> -1, else prediction); a (nested) weighted "
+       "average of training responses lies in their range, hence [0,10] for the shipped set (range checked at run time). Tie: stepwise correspondence of rate_quality histories (stub "
+       "rater) and real raters on nine reachable curve states compared with the standalone rater, repeated calls, fresh objects, another process.",
+  note=TB + "scikit-learn regressors are oracles: that tree ensembles predict weighted means of training responses is the hypothesis of C09_avg_in_range. Reals axioms "
+       "(sig_forall_dec, functional_extensionality_dep) under the two real-valued theorems.",
+  ref="6/C09"),
  "C12": dict(
   technique="Coq proof over a byte-level model of the hash pre-image (induction, cancellation, prefix-free codes); byte-exact correspondence with the wrapped hashlib.md5 argument",
   text="Theorems in coq/Props/C12.v about the md5 pre-image computed by a model of obj2bytes/_hash over the FP_DEFAULT key order regenerated on every run: "
